@@ -538,6 +538,8 @@ func runJob(p *Program, js *JobSpec, params map[string]int64, workers int, solve
 					sh.mu.Unlock()
 				}
 			}()
+			// package initialisers and the job's set-up run concretely, once: no exploration of orders there
+			e.permOff, e.schedOff = true, true
 			if err := initEngine(e, p, hpkg); err != nil {
 				panic(err.Error())
 			}
